@@ -64,6 +64,20 @@ def generate(seed, tier="quick"):
     prog = W.gen_program(rng, prof, {"prev": ["none", "same", "same", "tight", "wrong", "other", "slack", "subset", "superset"],
                                      "places": ["direct", "direct", "func", "func", "lam", "helper_arg"], "n_files": (1, 2), "n_sites": (1, 4),
                                      "n_tests": (1, 4), "styles": ["assert", "assert", "rec"], "raise_events": 0.1})
+    prng_ = sub(seed, "param")
+    n = 0
+    for f in prog["files"]:
+        if prng_.random() < 0.35:
+            # a parametrised test: one textual call site executed by several test items
+            n += 1
+            sid = f"ps{n}"
+            op = prng_.choice(["le", "ge", "in"])
+            params = prng_.sample(range(0, 9), prng_.randint(2, 4))
+            arg = prng_.choice([None, None, str(prng_.choice(params)), str(max(params)), str(min(params))])
+            if op == "in" and arg is not None:
+                arg = "[" + arg + "]"
+            f["sites"][sid] = {"op": op, "place": prng_.choice(["direct", "func"]), "arg": arg, "prev": None}
+            f["tests"].append({"name": f"test_p{n}", "param": params, "events": [{"t": "cmp", "eid": f"pe{n}", "site": sid, "var": "_p", "style": prng_.choice(["assert", "rec"])}]})
     xrng = sub(seed, "xfail")
     for f in prog["files"]:
         for t in f["tests"]:
@@ -72,6 +86,19 @@ def generate(seed, tier="quick"):
         orng = sub(seed, "order")
         orng.shuffle(f["tests"])
     return {"program": prog, "config": draw_config(sub(seed, "config")), "cold": sub(seed, "cold").random() < 0.04}
+
+
+def virtual_tests(prog):
+    """[(filename, test dict)] with parametrised tests expanded into one virtual test per parameter (pytest's item ids)"""
+    out = []
+    for f in sorted(prog["files"], key=lambda f: f["name"]):
+        for t in f["tests"]:
+            if t.get("param"):
+                for pv in t["param"]:
+                    out.append((f["name"], dict(t, name=f"{t['name']}[{pv}]", events=[{"t": "bind", "var": "_p", "val": ["int", pv]}] + t["events"])))
+            else:
+                out.append((f["name"], t))
+    return out
 
 
 def execute(case, ctx):
@@ -101,7 +128,8 @@ def execute(case, ctx):
         src.setdefault(sid, MISSING)
     approved = effective(cfg["flags"])
     # xfail tests run with an inactive private state: they do not touch the session's sites
-    events = [(fn, tn, e) for fn, tn, e in W.events_in_order(prog)]
+    vtests = virtual_tests(prog)
+    events = [(fn, t["name"], e) for fn, t in vtests for e in t["events"]]
     xfail = {(f["name"], t["name"]) for f in prog["files"] for t in f["tests"] if t.get("xfail")}
     m = SessionModel(src, ops, approved).run([ev for ev in events if (ev[0], ev[1]) not in xfail], V.pyval)
     spec = {"flags": cfg["flags"], "answers": cfg["answers"]}
@@ -117,8 +145,10 @@ def execute(case, ctx):
     any_bad = False
     judged = 0
     all_clean = True
-    for f in prog["files"]:
-        for t in f["tests"]:
+    byname = {f["name"]: f for f in prog["files"]}
+    for fname, t in vtests:
+        f = byname[fname]
+        if True:
             tk = (f["name"], t["name"])
             nodeid = f"{f['name']}::{t['name']}"
             if tk in xfail:
